@@ -268,7 +268,7 @@ def gen_x86(rng):
     data_lines(first)
     if use_struct and rng.random() < 0.5:
         src.append("rv\trec")
-        items.extend([("lab", "rv"), ("bytes", [0, 0, 0, 0])])
+        items.extend([("lab", "rv"), ("bytes", [0, 0, 0, 0], "reserved")])
         var["rv_fa"], var["rv_fb"], var["rv_fc"] = "b", "w", "b"
         sdone = True
     else:
@@ -302,7 +302,7 @@ def gen_x86(rng):
     data_lines(rest)
     if use_struct and not sdone:
         src.append("rv\trec")
-        items.extend([("lab", "rv"), ("bytes", [0, 0, 0, 0])])
+        items.extend([("lab", "rv"), ("bytes", [0, 0, 0, 0], "reserved")])
     src.append("\tnop")          # reserved space (the structure instance) never ends the image
     items.append(("bytes", [0x90]))
     addr = org
@@ -318,6 +318,8 @@ def gen_x86(rng):
     img = []
     for it in items:
         if it[0] == "bytes":
+            if len(it) > 2 and not img:
+                continue          # reserved space in front of the first byte is not part of the image either (p2bin starts at the first byte)
             for b in it[1]:
                 if isinstance(b, tuple):
                     b = (val[b[1]] & 255) if b[0] == "lo" else (val[b[1]] >> 8) & 255
